@@ -787,7 +787,7 @@ func (g *generator) enterNextFinallyFrame() (canContinue bool) {
 			vm.pc = int(tf.finallyPos)
 			tf.catchPos = tryPanicMarker
 			tf.finallyPos = -1
-			tf.finallyRet = -2 // -1 would cause it to continue after leaveFinally
+			tf.finallyRet = tryGeneratorMarker // -1 would cause it to continue after leaveFinally
 			return true
 		}
 		vm.popTryFrame()
